@@ -239,27 +239,32 @@ object(s) as data; the driver renders **that value** (`renderText`: `C09.value_s
 value), it does not evaluate the operations. What the operations should have produced is C08's
 question; the model-evaluated variants (`chtm` / `histm` / `opsm`) are diagnostics only. -/
 
-def parseChunk (tok : String) : Option CHText.Chunk :=
+/-- one chunk of a given value as the code's chunk object: `id:cps` (prefix/suffix of the formatter
+with that colour id) or `u=<prefix>=<suffix>:cps` (a chunk whose prefix/suffix pair no formatter of
+the line produced: rendered as it is) -/
+def parseGivenChunk (pal : Palette) (tok : String) : Option Sgr.Chunk :=
   match tok.splitOn ":" with
   | [col, cps] =>
-    match col.toNat?, parseCps cps with
-    | some c, some s => some ⟨c, s⟩
-    | _, _ => none
+    match col.splitOn "=" with
+    | ["u", p, q] =>
+      match parseCps p, parseCps q, parseCps cps with
+      | some p, some q, some t => some ⟨p, t, q⟩
+      | _, _, _ => none
+    | [c] =>
+      match c.toNat?, parseCps cps with
+      | some c, some t => (entry pal c).map fun e => ⟨e.1, t, e.2⟩
+      | _, _ => none
+    | _ => none
   | _ => none
 
-def parseValue (tok : String) : Option CHText.Text :=
-  if tok = "_" then some ⟨0, []⟩
-  else (tok.splitOn "/").mapM parseChunk |>.map fun cs => ⟨(CHText.cellsOf cs).length, cs⟩
-
-/-- one observation of a given value: `str plain strip <echo of the data>`; `foreign` = the object
-holds a chunk no formatter of the line produced (the adapter writes `u:` for it) -/
+/-- one observation of a given value: `str plain strip <echo of the data>` -/
 def showGiven (pal : Palette) (tok : String) : String :=
-  match parseValue tok with
-  | none => "foreign"
-  | some t =>
-    match showLook pal t with
-    | some s => s ++ " " ++ tok
-    | none => "bad-pal"
+  let chunks := if tok = "_" then some [] else (tok.splitOn "/").mapM (parseGivenChunk pal)
+  match chunks with
+  | none => "bad-pal"
+  | some cs =>
+    let s := render cs
+    showCps s ++ " " ++ showCps (plain cs) ++ " " ++ showCps (strip cls fin s) ++ " " ++ tok
 
 /-- the data tokens after `@`: `E:<Name>` = the real operations raised -/
 def showData (pal : Palette) (data : List String) : String :=
@@ -305,6 +310,25 @@ def handle (line : String) : String :=
         | .error e => "err " ++ e.name
         | .ok cs => showData (cs.map fun c => (c.pre, c.suf)) data
       | none => "bad-op"
+    | none => "bad-op"
+  | "make" :: n :: rest0 =>      -- `CHText.make([chunks])`: the same formatters-of-the-parts palette
+    let (rest, data) := splitData rest0
+    match n.toNat? with
+    | some k =>
+      match parseParts k rest with
+      | some parts =>
+        match mkChunks cfg parts with
+        | .error e => "err " ++ e.name
+        | .ok cs => showData (cs.map fun c => (c.pre, c.suf)) data
+      | none => "bad-op"
+    | none => "bad-op"
+  | ["first", entry, text] =>    -- the first call in a fresh process: the model has no "first time"
+    match parseCps text with
+    | some t =>
+      if entry = "plain-fmt" then showExcept (fun c => showCps (render [c])) (mkChunk cfg plainSpec t)
+      else if entry = "chunk-strip" || entry = "obj-strip" || entry = "cht-strip" then
+        "ok " ++ showCps (strip cls fin t)
+      else "bad-op"
     | none => "bad-op"
   | "hist" :: k :: rest0 =>
     let (rest, data) := splitData rest0
